@@ -51,6 +51,13 @@ def check(run: Run) -> None:
             # wiring is C02's business; here only note that the visit comparison could not be made
             run.fail("C14.R1", r["impl"], r["stmt"], f"{r['entry']} branch {r['branch']}: {r['why']} (fusion shape differs from the law, producer and consumer lambdas are not brought together as specified)", term=show(r["term"])[:300] if r.get("term") else "")
 
+    # ---------------- R4: the renaming helper that fusion relies on (shared with C02.R2)
+    run.rule("C14.R4", "make_args_unique renames through a stack whose pushes and pops pair up (a stale entry leaves an unresolved projection behind)")
+    from ..report import Relabel
+    from .c02 import _check_make_args_unique
+
+    _check_make_args_unique(Relabel(run, "C14.R4"), ctx, m)
+
     # ---------------- R2
     for name, attr_of_value in (("visit_Subscript", "value"), ("visit_Attribute", "value")):
         fi = cls.methods.get(name)
